@@ -1788,8 +1788,11 @@ impl FunctionDef {
                 // Build local bindings for this call (O(1) - no clone of parent environment!)
                 let mut local_bindings = HashMap::new();
 
-                // Add self-reference if named
-                if let Some(fn_name) = name {
+                // Add self-reference if named, unless the function captured a value under that
+                // name when it was created: a captured value is what the body refers to
+                if let Some(fn_name) = name
+                    && !scope.contains_key(fn_name)
+                {
                     local_bindings.insert(fn_name.clone(), this_value);
                 }
 
